@@ -5,6 +5,8 @@ import Nsq.Model.Relay
 import Nsq.Model.ToFileTrace
 import Nsq.Model.ToFileName
 import Nsq.Model.ToFileDisc
+import Nsq.Model.ToNsqLoop   -- relay sub-builder (C20 round 6): to_nsq main loop
+import Nsq.Model.RelayOpts   -- relay sub-builder (C20 round 6): option surface of nsq_to_http / nsq_to_nsq
 /-! Driver for engine E8 (tools): one operation per input line, one canonical answer line out.
 
 `tf …`  nsq_to_file router model (stateful: conf / pre / events / tree)
@@ -13,6 +15,8 @@ import Nsq.Model.ToFileDisc
 `tr …`  syscall-trace checker (FIN only after fsync)
 `fn …`  nsq_to_file file names (computeFilenameFormat / currentFilename)
 `td …`  nsq_to_file TopicDiscoverer (stateful: new / upd / tick-err / hup / term)
+`lp …`  to_nsq main loop (throttle / EOF / Stop) under a given schedule      [relay block]
+`opt …` relay option surface: hdr / req / args / pass / wl / topic / hmark / nmark [relay block]
 -/
 open Nsq Nsq.Line
 
@@ -106,6 +110,10 @@ def stepLine (d : E8.D) (line : String) : String × E8.D :=
   | "trm" :: ws => (Nsq.Model.ToFileTrace.driverLineM ws, d)
   | "fn" :: ws => (Nsq.Model.ToFileName.driverLine ws, d)
   | "td" :: ws => let r := Nsq.Model.ToFileDisc.driverStep d.disc ws; (r.1, { d with disc := r.2 })
+  -- ---- relay block (C20 round 6, sub-builder `relay`): add new ops only below this line ----
+  | "lp" :: ws => (Nsq.Model.ToNsqLoop.driverLine ws, d)
+  | "opt" :: ws => (Nsq.Model.RelayOpts.driverLine ws, d)
+  -- ---- end of relay block ----
   | _ => ("bad-op", d)
 
 partial def loop (h : IO.FS.Stream) (out : IO.FS.Stream) (d : E8.D) : IO Unit := do
